@@ -228,14 +228,17 @@ def report(prop, res, flaky=()):
         for sp, cid, out in res.framework_errors[:5]:
             print("FRAMEWORK-ERROR space=%s case=%r\n%s" % (sp, cid[:200], out), file=sys.stderr)
         return 2
+    flaky_ids = {id(v) for v, _ in flaky}
+    confirmed = [v for v in res.violations if id(v) not in flaky_ids]
     if flaky:
         for v, obs in flaky[:5]:
-            print("FRAMEWORK-ERROR non-reproducible disagreement space=%s case=%r first=%r second=%r" % (
-                v["space"], v["case_id"][:200], v["observed"][:120], obs[:120]), file=sys.stderr)
-        return 2
-    if not res.violations:
+            print("%s non-reproducible disagreement space=%s case=%r first=%r second=%r" % (
+                "NOTE" if confirmed else "FRAMEWORK-ERROR", v["space"], v["case_id"][:200], v["observed"][:120], obs[:120]), file=sys.stderr)
+        if not confirmed:
+            return 2        # nothing but disagreements that did not reproduce: no verdict
+    if not confirmed:
         return 0
-    vs = sorted(res.violations, key=lambda v: (len(v["case_id"]), v["case_id"]))
+    vs = sorted(confirmed, key=lambda v: (len(v["case_id"]), v["case_id"]))
     for v in vs[:MAX_VIOLATION_LINES]:
         p = write_replay(v)
         print("VIOLATION property=%s replay=%s" % (prop, p))
